@@ -882,7 +882,7 @@ func runCheck(prop, tier string, seed uint64, workers, budgetOverride int, keep,
 		defer os.RemoveAll(scratch)
 	}
 	needRace := prop == "C12"
-	env, err := prepare(scratch, needRace, !needRace)
+	env, err := prepare(scratch, needRace, true)
 	if err != nil {
 		os.RemoveAll(scratch)
 		fatal2("%v", err)
